@@ -139,6 +139,12 @@ def run(ck: Check):
                 if total and rng.random() < 0.7:
                     c["bad_rids"] = rng.sample(range(total), min(total, rng.choice([1, 2, 3])))
     scs += takeover_late_partition(rng, n)
+    # the same kind of scenarios against older broker releases (other request / response versions of every group API)
+    rng_old = random.Random(ck.seed * 7121 + 404)
+    for i in range(ck.n(18, 200)):
+        sc = conssim.old_broker(conssim.gen_scenario(rng_old, 700000 + i), rng_old)
+        sc["faults"]["apis"] = ["OffsetCommit", "OffsetCommit", "Heartbeat", "JoinGroup", "SyncGroup", "FindCoordinator"]
+        scs.append(sc)
     results = conssim.run_scenarios(scs, timeout=ck.n(900, 3000))
     traces = []
     nbad = 0
